@@ -702,6 +702,47 @@ fn run_job(scen: &Value, names: &[String], job: &Value, budget: usize, want_ops:
                 do_grant!(t);
             }
         }
+        "starve" => {
+            // lock-freedom stress: the victim's compare-exchange is made to fail `rounds` times in a row — every time it
+            // is about to attempt it, some other thread first completes a write to the same cell
+            let victim = names.iter().position(|x| x == job["victim"].as_str().unwrap()).unwrap();
+            let rounds = job.get("rounds").and_then(|x| x.as_u64()).unwrap_or(12) as usize;
+            let mut rr2 = 0usize;
+            'outer: for _ in 0..rounds {
+                // advance the victim up to its next compare-exchange
+                let mut guard = 0;
+                loop {
+                    if !sched.enabled().contains(&victim) { break 'outer; }
+                    match sched.pending(victim) {
+                        Pend::Op(op) if matches!(op.kind, OpKind::CasWeak | OpKind::CasStrong) => break,
+                        _ => { do_grant!(victim); }
+                    }
+                    guard += 1;
+                    if guard > 50 || nsteps >= budget { break 'outer; }
+                }
+                let cell = match sched.pending(victim) { Pend::Op(op) => op.addr, _ => break };
+                // let somebody else complete a write to that cell
+                let mut wrote = false;
+                let mut tries = 0;
+                while !wrote && tries < 60 && nsteps < budget {
+                    let en: Vec<usize> = sched.enabled().into_iter().filter(|t| *t != victim).collect();
+                    if en.is_empty() { break 'outer; }
+                    rr2 += 1;
+                    let t = en[rr2 % en.len()];
+                    let (_, dones) = sched.grant(t);
+                    nsteps += 1;
+                    choices_taken.push(names[t].clone());
+                    for d in &dones {
+                        if d.op.addr == cell && d.ok && matches!(d.op.kind, OpKind::CasWeak | OpKind::CasStrong | OpKind::FetchAdd | OpKind::FetchSub | OpKind::Store | OpKind::Swap | OpKind::FetchOther) {
+                            wrote = true;
+                        }
+                    }
+                    tries += 1;
+                }
+                if !wrote { break; }
+                if sched.enabled().contains(&victim) { do_grant!(victim); }     // the victim's attempt (fails if the value changed)
+            }
+        }
         _ => panic!("mode"),
     }
     // drain: finish remaining threads round robin
